@@ -1580,5 +1580,5 @@ package zygo
 // configuration set before evaluation. A new field is state nobody has classified (memo tables
 // and counters are how a failed or repeated evaluation leaves a trace): it fails this obligation
 // until it is reviewed and listed. Same for the delayed-argument record.
-//@ fieldsclosed C05 Zlisp | parser, datastack, addrstack, linearstack, loopstack, symtable, revsymtable, builtins, reserved, macros, curfunc, mainfunc, pc, nextsymbol, before, after, debugExec, debugSymbolNotFound, showGlobalScope, baseTypeCtor, infixOps, Pretty, booter, WrapLoadExpressionsInInfix, sandboxed
+//@ fieldsclosed C05 Zlisp | parser, datastack, addrstack, linearstack, loopstack, symtable, revsymtable, builtins, reserved, macros, curfunc, mainfunc, pc, nextsymbol, before, after, debugExec, debugSymbolNotFound, showGlobalScope, baseTypeCtor, infixOps, Pretty, booter, WrapLoadExpressionsInInfix, sandboxed, Echo
 //@ fieldsclosed C05 SexpLazyArg | Expr, Stack, CurFunc, Forced, Value
